@@ -159,6 +159,32 @@ Section C15.
                 ExecAsync.s_round st' = S (ExecAsync.s_round st) /\ st_phase s' = PPoll.
   Proof. exact (fun st s m mid s' NC => round_preserves_coupling p WF BF NC fx st s m mid s'). Qed.
 
+  (** The executor's half, first part.  What a poll of C02's executor does to its promise table
+      between two idle calls (Fut/Acct.v, [Acct]: promises appended, none of them done — Go and Batch
+      never send before returning —, channel entries removed) is, through the coupling, the LTS run
+      "[LCreate] every new promise, [LConsume] every entry that disappeared", and the states are
+      coupled again.  The request's promises are a flat program ([flat_async]: every promise a Go or
+      Batch item without parent, the most permissive abstraction of the executor).
+      STILL OPEN for "response == response with all resolvers synchronous" as a theorem: (i) promises
+      the executor stops waiting for ([Acct]'s ghost ids dropped without being received) as
+      [LAbandon], (ii) that after a poll of a still-pending future no awaited promise has an unread
+      result and some awaited promise is empty — [LIdleEnter]'s guard — and that a ready future
+      leaves nothing awaited — [LEnd]'s guard; both need lemmas about C02's [Step] that [Acct] does
+      not provide. *)
+  Theorem C15_poll_is_creates_and_consumes : forall st st' s m new,
+    flat_async p ->
+    K st s -> Inv p s -> Sim p s m -> st_phase s = PPoll ->
+    ExecAsync.s_proms st' = ExecAsync.s_proms st ++ new ->
+    (forall k pr, nth_error new k = Some pr ->
+       ExecAsync.p_id pr = length (ExecAsync.s_proms st) + k /\ ExecAsync.p_done pr = false) ->
+    (forall x, In x (ExecAsync.s_chans st') -> In x (ExecAsync.s_chans st)) ->
+    length (ExecAsync.s_proms st') <= length (p_items p) ->
+    exists s' m',
+      run fx p s (map LCreate (seq (length (ExecAsync.s_proms st)) (length new)) ++
+                  map LConsume (taken_ids st st')) = Some s' /\
+      K st' s' /\ Inv p s' /\ Sim p s' m' /\ st_phase s' = PPoll.
+  Proof. exact (fun st st' s m new FL => poll_is_creates_and_consumes p WF BF fx FL st st' s m new). Qed.
+
   (** With chaining a round may fill only inner promises (see the refutation below); the executor
       then calls the handler again, and altogether never more often than the request has promises. *)
   Theorem C15_idle_rounds_bounded : forall tr s,
@@ -249,6 +275,26 @@ Theorem C15_subscription_stale_resolution_refuted_before_fix :
     run current p init (pre ++ LIdleEnter :: mid ++ [LIdleExit]) = None.
 Proof. exact stale_resolution_before_fix. Qed.
 
+(** ONE AWAITING CHAIN PER PROMISE.  A promise carries one result.  In no reachable state do two
+    chain / join goroutines wait for the same promise ([wf_items]: api-fu obtains a fresh promise from
+    the getter for every chain it builds) ... *)
+Theorem C15_one_reader_per_promise : forall p, wf_items p = true -> bfun_ok p ->
+  forall fx tr s c1 c2 j1 j2 v1 v2 q,
+  run fx p init tr = Some s ->
+  st_gor s c1 = GWaiting j1 v1 -> st_gor s c2 = GWaiting j2 v2 ->
+  nth_error (inner_of p c1) j1 = Some q -> nth_error (inner_of p c2) j2 = Some q -> c1 = c2.
+Proof. exact one_reader_per_promise. Qed.
+
+(** ... and the hypothesis cannot be dropped: the seeded change "memoized edge resolver call on the
+    zero-count path" makes totalCount and pageInfo chain onto the SAME promise (items 1 and 2 over
+    promise 0); one chain takes the result, the other waits for ever, the idle handler is blocked in
+    its receive with promise 2 awaited and no forced label enabled. *)
+Theorem C15_deadlock_refuted_when_promise_has_two_chains :
+  exists p tr s, wf_items p = false /\ nodupb (all_inner p) = false /\ bfun_ok p /\
+                 run current p init tr = Some s /\ st_phase s = PTop /\ live p s 2 = true /\
+                 forall l, forced l = true -> step current p s l = None.
+Proof. exact deadlock_when_promise_has_two_chains. Qed.
+
 (** A hand-over in Go that also selects on the request context (the seeded change C15-2, as the
     step relation [step_ctxdrop]): after a cancellation the goroutine may end without handing its
     result over; the request [create 0; idle-enter; cancel; finish 0; arrive 0; exit 0] is then inside
@@ -282,6 +328,8 @@ Print Assumptions C15_no_leak.
 Print Assumptions C15_drains.
 Print Assumptions C15_no_leak_refuted_before_fix.
 Print Assumptions C15_completes_refuted_with_ctx_drop.
+Print Assumptions C15_one_reader_per_promise.
+Print Assumptions C15_deadlock_refuted_when_promise_has_two_chains.
 Print Assumptions C15_subscription_events_isolated.
 Print Assumptions C15_subscription_batch_leak_refuted_before_fix.
 Print Assumptions C15_subscription_stale_resolution_refuted_before_fix.
@@ -289,6 +337,7 @@ Print Assumptions C15_idle_round_fulfils.
 Print Assumptions C15_idle_round_fair_unchained.
 Print Assumptions C15_idle_round_deliveries_outstanding.
 Print Assumptions C15_idle_round_is_C02_idle_transition.
+Print Assumptions C15_poll_is_creates_and_consumes.
 Print Assumptions C15_idle_rounds_bounded.
 Print Assumptions C15_round_fairness_refuted_with_chaining.
 Print Assumptions C15_handler_record_is_fair_scheduler.
